@@ -255,3 +255,70 @@ func pipelinedUndecodableCase(c *core.Ctx, r *core.Rand, i int) {
 	}
 	c.Count("census_checks", 1)
 }
+
+// nonReadingShutdownCase: clients request large responses and never read them, so that the server's writers are blocked
+// in Write; other clients are served meanwhile, and Shutdown returns (after its grace period it cancels what is left).
+func nonReadingShutdownCase(c *core.Ctx, r *core.Rand, i int) {
+	base := len(census.Goroutines())
+	w := newWorld()
+	n := 1 + r.Intn(3)
+	var stuck []interface{ Close() error }
+	for k := 0; k < n; k++ {
+		conn, _ := w.l.Dial()
+		stuck = append(stuck, conn)
+		for q := 1 + r.Intn(3); q > 0; q-- {
+			go conn.Write(request(fmt.Sprintf("nr%d-%d-%d-big", i, k, q))) // 200 KiB answers into a 64 KiB pipe nobody reads
+		}
+	}
+	// wait until a writer is blocked (bounded; if the machine is too slow the case is inconclusive)
+	blocked := false
+	for t := 0; t < 400 && !blocked; t++ {
+		for _, g := range census.Goroutines() {
+			if strings.Contains(g, "memnet.(*Conn).Write") && strings.Contains(g, "kmipserver") {
+				blocked = true
+				break
+			}
+		}
+		if !blocked {
+			time.Sleep(5 * time.Millisecond)
+		}
+	}
+	if !blocked {
+		c.Inconclusive("non-reading clients: no server writer blocked after 2 s")
+		for _, s := range stuck {
+			s.Close()
+		}
+		w.srv.Shutdown()
+		<-w.done
+		return
+	}
+	// another client is served while those writers are stuck
+	other, _ := w.l.Dial()
+	id := fmt.Sprintf("nr%d-other-ok", i)
+	if resp, err := rawRoundtrip(other, request(id)); err != nil || classify(resp) != id {
+		c.Violation("C08:non-reading-clients:others-not-served", fmt.Sprintf("while %d clients do not read their (large) responses, another client is not served: %v", n, err), nil)
+	}
+	other.Close()
+	c.Count("non_reading_clients", int64(n))
+	c.Distinct(core.Hash64("non-reading", fmt.Sprint(n, i%5)))
+	shut := make(chan error, 1)
+	go func() { shut <- w.srv.Shutdown() }()
+	select {
+	case <-shut:
+		c.Count("shutdowns_with_blocked_writers", 1)
+	case <-time.After(25 * time.Second):
+		c.Violation("C08:shutdown-does-not-return:blocked-writers", fmt.Sprintf("Shutdown did not return within 25 s while %d clients do not read their responses (the grace period is 3 s)", n), map[string]any{"goroutines": census.Goroutines()})
+		for _, s := range stuck {
+			s.Close()
+		}
+		return
+	}
+	<-w.done
+	for _, s := range stuck {
+		s.Close()
+	}
+	if left := census.Settle(base, 10*time.Second); len(left) > 0 {
+		c.Violation("C08:goroutines-left:"+census.BlockedIn(left[0]), fmt.Sprintf("%d library goroutines remain after Shutdown returned with %d non-reading clients; one is blocked in %s", len(left), n, census.BlockedIn(left[0])), map[string]any{"goroutine": left[0]})
+	}
+	c.Count("census_checks", 1)
+}
